@@ -76,7 +76,7 @@ func Encode(v interface{}) string {
 }
 
 // Ints is the boundary pool of int64 operands.
-var Ints = []int64{0, 1, -1, 2, -2, 3, 7, 10, 63, 64, 65, -3, 4094, 4095, 4096, 4097, 1000000,
+var Ints = []int64{0, 1, -1, 2, -2, 3, 7, 8, 9, 10, 16, -9, 63, 64, 65, -3, 4094, 4095, 4096, 4097, 1000000,
 	1<<31 - 1, 1 << 31, -(1 << 31), -(1 << 31) - 1, 1<<53 - 1, 1 << 53, 1<<53 + 1, -(1<<53 + 1),
 	math.MaxInt64, math.MaxInt64 - 1, math.MinInt64, math.MinInt64 + 1, 1 << 62, 4611686018427387905}
 
@@ -86,7 +86,7 @@ var Floats = []float64{0, math.Copysign(0, -1), 1, -1, 0.5, 1.5, 2.5, -2.25, 3, 
 
 // Strs is the pool of string operands.
 var Strs = []string{"", "a", "abc", "0", "1", "1.5", "10", "1000000", "-1", "+5", "0x10", "0b11", "true", "false",
-	"f", "T", "1e3", " 1", "9223372036854775807", "9223372036854775808", "é", "nil", "2.25", "1.0", "0.0", ".5", "1.", "9007199254740993", "inf", "NaN", "1_0"}
+	"f", "T", "1e3", " 1", "9223372036854775807", "9223372036854775808", "é", "nil", "2.25", "1.0", "0.0", ".5", "1.", "9007199254740993", "inf", "NaN", "1_0", "010", "-011", "007", "08", "0o10", "0x10 ", "00", "+010", "0X10", "0b2", "1e1", "010.0"}
 
 // Containers builds fresh container operands (fresh so that tests never alias).
 func Containers() []interface{} {
